@@ -43,6 +43,14 @@ pub struct BinSpec {
     pub idl_text: String,    // written to idl/<stem>.varlink (generator ran fine in-process)
     pub source: String,      // src/bin/<stem>.rs
 }
+/// one cell of the option matrix: `generate_with_options(text, GeneratorOptions { preamble, .. }, tosource)` run inside the
+/// probe package's build script, the output compiled as a bin of its own (a file module when tosource: inner attributes)
+pub struct OptSpec {
+    pub stem: String, // o<hash>
+    pub idl_text: String,
+    pub tosource: bool,
+    pub preamble: Option<String>,
+}
 pub struct DeriveSpec {
     pub stem: String, // d<hash>
     pub idl_text: String,
@@ -58,7 +66,7 @@ pub struct BinResult {
 const RT_LIB: &str = include_str!("../gen_rt_lib.rs");
 const SX_RS: &str = include_str!("../../sx.rs");
 
-pub fn write_package(bins: &[BinSpec], derives: &[DeriveSpec]) {
+pub fn write_package(bins: &[BinSpec], derives: &[DeriveSpec], opts: &[OptSpec]) {
     let root = work_dir();
     let _ = std::fs::create_dir_all(root.join("src/bin"));
     let _ = std::fs::create_dir_all(root.join("idl"));
@@ -66,7 +74,7 @@ pub fn write_package(bins: &[BinSpec], derives: &[DeriveSpec]) {
         "[package]\nname = \"genprobe\"\nversion = \"0.1.0\"\nedition = \"2018\"\nbuild = \"build.rs\"\npublish = false\nautobins = false\n\n[workspace]\n\n\
          [lib]\nname = \"genprobe\"\npath = \"src/lib.rs\"\n\n\
          [dependencies]\nvarlink = { path = \"/repo/varlink\" }\nvarlink_generator = { path = \"/repo/varlink_generator\" }\nvarlink_derive = { path = \"/repo/varlink_derive\" }\n\
-         serde = \"1\"\nserde_derive = \"1\"\nserde_json = \"1\"\n\n[build-dependencies]\nvarlink_generator = { path = \"/repo/varlink_generator\" }\n\n\
+         serde = \"1\"\nserde_derive = \"1\"\nserde_json = \"1\"\n\n[build-dependencies]\nvarlink_generator = { path = \"/repo/varlink_generator\" }\nproc-macro2 = \"1\"\n\n\
          [profile.dev]\nopt-level = 1\ndebug = false\n\n[profile.dev.package.genprobe]\nopt-level = 0\n\n",
     );
     toml.push_str("[[bin]]\nname = \"fe_build\"\npath = \"src/bin/fe_build.rs\"\n\n");
@@ -75,6 +83,9 @@ pub fn write_package(bins: &[BinSpec], derives: &[DeriveSpec]) {
     }
     for d in derives {
         toml.push_str(&format!("[[bin]]\nname = \"{0}\"\npath = \"src/bin/{0}.rs\"\n\n", d.stem));
+    }
+    for o in opts {
+        toml.push_str(&format!("[[bin]]\nname = \"{0}\"\npath = \"src/bin/{0}.rs\"\n\n", o.stem));
     }
     write_if_changed(&root.join("Cargo.toml"), &toml);
     write_if_changed(&root.join(".cargo/config.toml"), "[net]\noffline = true\n");
@@ -113,13 +124,42 @@ pub fn write_package(bins: &[BinSpec], derives: &[DeriveSpec]) {
          if !run(&files) {\n        status = String::from(\"failed\");\n        for f in &files {\n            if !run(&[*f]) {\n                status.push_str(\" \");\n                status.push_str(f);\n            }\n        }\n    }\n    \
          let dir = std::env::var(\"CARGO_MANIFEST_DIR\").unwrap();\n    \
          std::fs::write(format!(\"{}/helper-status.txt\", dir), status).unwrap();\n    \
-         println!(\"cargo:rerun-if-changed=build.rs\");\n}\n",
+         let _ = std::fs::create_dir_all(format!(\"{}/src/opt\", dir));\n    \
+         std::panic::set_hook(Box::new(|_| {}));\n",
+    );
+    for o in opts {
+        b.push_str(&format!(
+            "    opt(&dir, {:?}, {}, {});\n",
+            o.stem,
+            o.tosource,
+            match &o.preamble {
+                None => "None".to_string(),
+                Some(p) => format!("Some({:?})", p),
+            }
+        ));
+    }
+    b.push_str(
+        "    println!(\"cargo:rerun-if-changed=build.rs\");\n}\n\n\
+         // one cell of the option matrix: generate_with_options with a preamble, output and status into src/opt/\n\
+         fn opt(dir: &str, stem: &str, tosource: bool, preamble: Option<&str>) {\n    \
+         let text = std::fs::read(format!(\"{}/idl/{}.varlink\", dir, stem)).unwrap();\n    \
+         let r = std::panic::catch_unwind(|| {\n        \
+         let mut w: Vec<u8> = Vec::new();\n        \
+         let options = varlink_generator::GeneratorOptions {\n            \
+         preamble: preamble.map(|p| p.parse::<proc_macro2::TokenStream>().unwrap()),\n            \
+         ..Default::default()\n        };\n        \
+         let mut rd: &[u8] = &text;\n        \
+         varlink_generator::generate_with_options(&mut rd, &mut w, &options, tosource).map(|_| w)\n    });\n    \
+         let (status, out) = match r {\n        Ok(Ok(w)) => (\"ok\", w),\n        Ok(Err(_)) => (\"err\", Vec::new()),\n        Err(_) => (\"panic\", Vec::new()),\n    };\n    \
+         std::fs::write(format!(\"{}/src/opt/{}.rs\", dir, stem), out).unwrap();\n    \
+         std::fs::write(format!(\"{}/src/opt/{}.status\", dir, stem), status).unwrap();\n    \
+         println!(\"cargo:rerun-if-changed=idl/{}.varlink\", stem);\n}\n",
     );
     write_if_changed(&root.join("build.rs"), &b);
     // sources of earlier batches
     let keep: std::collections::HashSet<String> =
-        bins.iter().map(|b| b.stem.clone()).chain(derives.iter().map(|d| d.stem.clone())).chain(std::iter::once("fe_build".to_string())).collect();
-    for sub in ["src/bin", "idl", "cmds"] {
+        bins.iter().map(|b| b.stem.clone()).chain(derives.iter().map(|d| d.stem.clone())).chain(opts.iter().map(|o| o.stem.clone())).chain(std::iter::once("fe_build".to_string())).collect();
+    for sub in ["src/bin", "idl", "cmds", "src/opt"] {
         if let Ok(rd) = std::fs::read_dir(root.join(sub)) {
             for e in rd.flatten() {
                 let stem = e.path().file_stem().map(|s| s.to_string_lossy().to_string()).unwrap_or_default();
@@ -132,6 +172,17 @@ pub fn write_package(bins: &[BinSpec], derives: &[DeriveSpec]) {
     for x in bins {
         write_if_changed(&root.join(format!("idl/{}.varlink", x.stem)), &x.idl_text);
         write_if_changed(&root.join(format!("src/bin/{}.rs", x.stem)), &x.source);
+    }
+    for o in opts {
+        write_if_changed(&root.join(format!("idl/{}.varlink", o.stem)), &o.idl_text);
+        // tosource output starts with inner attributes: it is a source file of its own (`mod x;`), as the documentation of
+        // cargo_build_tosource intends; the other form is included into a module like the build-helper output
+        let src = if o.tosource {
+            format!("// written by vharness (suite gen): option matrix\n#![allow(warnings)]\n#[path = \"../opt/{}.rs\"]\npub mod g;\nfn main() {{}}\n", o.stem)
+        } else {
+            format!("// written by vharness (suite gen): option matrix\n#![allow(warnings)]\npub mod g {{ include!(\"../opt/{}.rs\"); }}\nfn main() {{}}\n", o.stem)
+        };
+        write_if_changed(&root.join(format!("src/bin/{}.rs", o.stem)), &src);
     }
     for d in derives {
         let src = format!(
@@ -206,7 +257,7 @@ pub fn cargo_build(stems: &[String]) -> Result<BTreeMap<String, BinResult>, Stri
                     if let Some(a) = sp.as_array() {
                         for s in a {
                             let f = s["file_name"].as_str().unwrap_or("");
-                            if f.contains("/out/") && f.ends_with(".rs") {
+                            if (f.contains("/out/") || f.contains("/opt/")) && f.ends_with(".rs") {
                                 *in_gen = true;
                             } else if f.starts_with("src/bin/") || f.contains("genprobe/src/") {
                                 *in_harness = true;
@@ -235,7 +286,7 @@ pub fn cargo_build(stems: &[String]) -> Result<BTreeMap<String, BinResult>, Stri
             for e in rd.flatten() {
                 let name = e.file_name().to_string_lossy().to_string();
                 let base = name.split(|c| c == '-' || c == '.').next().unwrap_or("").to_string();
-                let ours = base.len() == 17 && (base.starts_with('p') || base.starts_with('d')) && base[1..].chars().all(|c| c.is_ascii_hexdigit());
+                let ours = base.len() == 17 && (base.starts_with('p') || base.starts_with('d') || base.starts_with('o')) && base[1..].chars().all(|c| c.is_ascii_hexdigit());
                 if ours && !stems.contains(&base) {
                     let _ = std::fs::remove_file(e.path());
                 }
@@ -246,7 +297,7 @@ pub fn cargo_build(stems: &[String]) -> Result<BTreeMap<String, BinResult>, Stri
         for e in rd.flatten() {
             let name = e.file_name().to_string_lossy().to_string();
             let base = name.split('-').next().unwrap_or("").to_string();
-            let ours = base.len() == 17 && (base.starts_with('p') || base.starts_with('d')) && base[1..].chars().all(|c| c.is_ascii_hexdigit());
+            let ours = base.len() == 17 && (base.starts_with('p') || base.starts_with('d') || base.starts_with('o')) && base[1..].chars().all(|c| c.is_ascii_hexdigit());
             if ours {
                 let _ = std::fs::remove_dir_all(e.path());
             }
@@ -452,4 +503,8 @@ pub fn scan_items(src: &str) -> (Vec<(String, String)>, Vec<(String, Vec<String>
 /// outcome of `cargo_build_many` on the whole batch inside the probe package's build script: "ok" | "failed [files…]"
 pub fn helper_status() -> String {
     std::fs::read_to_string(work_dir().join("helper-status.txt")).unwrap_or_else(|_| "unknown".into())
+}
+
+pub fn opt_status(stem: &str) -> String {
+    std::fs::read_to_string(work_dir().join("src/opt").join(format!("{}.status", stem))).unwrap_or_else(|_| "missing".into())
 }
